@@ -232,49 +232,56 @@ theorem gpc_upper_alts (S : LeafSpec ev G) (X Y Z : Nat) (m : M) (g : VC) (hg : 
       · simp only [he, Bool.false_eq_true, if_false] at h
         split at h
         · cases h
-        · rename_i cm hcm
-          simp only [convertMarkersFor, bind, Except.bind] at hcm
-          split at hcm
-          · cases hcm
-          · rename_i d hd
-            have hds := dnf_sound S hg hd
-            split at hcm
-            · cases hcm
-            · rename_i groups hgroups
-              by_cases hall : groups.all List.isEmpty = true
-              · simp [hall, pure, Except.pure] at hcm; subst hcm
-                simp [pure, Except.pure] at h; subst h; exact any_allowsPlain _
-              · simp only [hall, Bool.false_eq_true, if_false, pure, Except.pure] at hcm
-                injection hcm with hcm; subst hcm
-                simp only at h
-                by_cases hc : (dedupGroups groups).contains [] = true
-                · simp only [hc, if_true, pure, Except.pure] at h
-                  injection h with h; subst h; exact any_allowsPlain _
-                · simp only [hc, Bool.false_eq_true, if_false] at h
-                  split at h
-                  · cases h
-                  · rename_i txt htxt
-                    have hgne : groups ≠ [] := by intro e; subst e; simp at hall
-                    obtain ⟨chss, rfl, f1, f2, f3, f4, f5⟩ :=
-                      gpc_text_facts S X Y Z d hds.1 hL groups hgroups hc hgne txt htxt
-                    have hmm := mapM_ok_mem (conjPairs "python_version") (membersIfUnion d) groups hgroups
-                    obtain ⟨c, hc1, hc2⟩ := semAny_membersIfUnion d (by rw [hds.2]; exact hs)
-                    obtain ⟨gr, hgr1, hgr2⟩ := hmm.1 c hc1
-                    obtain ⟨ls, h1, h2, h3, h4⟩ := conjPairs_spec (ev := ev) c gr hgr2
-                    obtain ⟨chs, hchs, hf⟩ := f4 gr hgr1
-                    have hLs : ∀ l ∈ ls, LeafAlts ev X Y Z l := fun l hl =>
-                      hL l (good_leaves c (good_membersIfUnion d hds.1 c hc1) l (h3 l hl)) (h2 l hl)
-                    obtain ⟨ch, hch, htrue⟩ := (hf.2.2 ls h1.symm hLs).1 (h4 hc2)
-                    obtain ⟨vc, hvc, hb⟩ := (hSp chss.flatten f1 f2 f3).1
-                      ⟨ch, List.mem_flatten.2 ⟨chs, hchs, hch⟩, htrue⟩
-                    rw [hvc] at h; injection h with h; subst h
-                    exact hb
+        · rename_i d0 hd0
+          by_cases hde : d0.isEmpty = true
+          · exfalso
+            have := (dnf_sound S hg hd0).2
+            rw [M.isEmpty_sem hde, hs] at this; cases this
+          · simp only [hde, Bool.false_eq_true, if_false] at h
+            split at h
+            · cases h
+            · rename_i cm hcm
+              simp only [convertMarkersFor, bind, Except.bind] at hcm
+              split at hcm
+              · cases hcm
+              · rename_i d hd
+                have hds := dnf_sound S hg hd
+                split at hcm
+                · cases hcm
+                · rename_i groups hgroups
+                  by_cases hall : groups.all List.isEmpty = true
+                  · simp [hall, pure, Except.pure] at hcm; subst hcm
+                    simp [pure, Except.pure] at h; subst h; exact any_allowsPlain _
+                  · simp only [hall, Bool.false_eq_true, if_false, pure, Except.pure] at hcm
+                    injection hcm with hcm; subst hcm
+                    simp only at h
+                    by_cases hc : (dedupGroups groups).contains [] = true
+                    · simp only [hc, if_true, pure, Except.pure] at h
+                      injection h with h; subst h; exact any_allowsPlain _
+                    · simp only [hc, Bool.false_eq_true, if_false] at h
+                      split at h
+                      · cases h
+                      · rename_i txt htxt
+                        have hgne : groups ≠ [] := by intro e; subst e; simp at hall
+                        obtain ⟨chss, rfl, f1, f2, f3, f4, f5⟩ :=
+                          gpc_text_facts S X Y Z d hds.1 hL groups hgroups hc hgne txt htxt
+                        have hmm := mapM_ok_mem (conjPairs "python_version") (membersIfUnion d) groups hgroups
+                        obtain ⟨c, hc1, hc2⟩ := semAny_membersIfUnion d (by rw [hds.2]; exact hs)
+                        obtain ⟨gr, hgr1, hgr2⟩ := hmm.1 c hc1
+                        obtain ⟨ls, h1, h2, h3, h4⟩ := conjPairs_spec (ev := ev) c gr hgr2
+                        obtain ⟨chs, hchs, hf⟩ := f4 gr hgr1
+                        have hLs : ∀ l ∈ ls, LeafAlts ev X Y Z l := fun l hl =>
+                          hL l (good_leaves c (good_membersIfUnion d hds.1 c hc1) l (h3 l hl)) (h2 l hl)
+                        obtain ⟨ch, hch, htrue⟩ := (hf.2.2 ls h1.symm hLs).1 (h4 hc2)
+                        obtain ⟨vc, hvc, hb⟩ := (hSp chss.flatten f1 f2 f3).1
+                          ⟨ch, List.mem_flatten.2 ⟨chs, hchs, hch⟩, htrue⟩
+                        rw [hvc] at h; injection h with h; subst h
+                        exact hb
 
 /-- **exactness on python-only markers, `in` lists included** -/
 theorem gpc_exact_alts (S : LeafSpec ev G) (X Y Z : Nat) (m : M) (g : VC) (hg : M.Good G m)
     (hv : ∀ n ∈ M.vars m, pyNames.contains n = true)
     (hL : ∀ l, G l → convKey l.name = pyKey → LeafAlts ev X Y Z l)
-    (hne : ∀ d, dnf defaultFuel [] m = .ok d → d ≠ .empty)
     (hpy : ∀ d, dnf defaultFuel [] m = .ok d → ∀ l ∈ M.leaves d, convKey l.name = pyKey)
     (h : gpc m = .ok g) : M.sem ev m = g.allowsPlain (pyV X Y Z) := by
   have hSp := splitSound_holds X Y Z
@@ -296,78 +303,85 @@ theorem gpc_exact_alts (S : LeafSpec ev G) (X Y Z : Nat) (m : M) (g : VC) (hg : 
         · simp only [he, Bool.false_eq_true, if_false] at h
           split at h
           · cases h
-          · rename_i cm hcm
-            simp only [convertMarkersFor, bind, Except.bind] at hcm
-            split at hcm
-            · cases hcm
-            · rename_i d hd
-              have hds := dnf_sound S hg hd
-              have hdf : M.sem ev d = false := by rw [hds.2]; exact hs
-              obtain ⟨hne', hsh⟩ := dnfPy_of d (dnf_isDnf hd) (hne d hd)
-                (by intro e; rw [e] at hdf; simp at hdf) (hpy d hd)
-              split at hcm
-              · cases hcm
-              · rename_i groups hgroups
-                have hmm := mapM_ok_mem (conjPairs "python_version") (membersIfUnion d) groups hgroups
-                have hnoempty : ∀ gr ∈ groups, gr ≠ [] := by
-                  intro gr hgr e
-                  subst e
-                  obtain ⟨c, hc, hcp⟩ := hmm.2 [] hgr
-                  obtain ⟨ls, h1, _, h3⟩ := conjPairs_py (ev := ev) c [] hcp (hsh c hc)
-                  have : ls = [] := by simpa using h1.symm
-                  subst this
-                  have := member_false_of_sem_false d c hc hdf
-                  rw [h3] at this; simp at this
-                have hgne : groups ≠ [] := by
-                  obtain ⟨c, hc⟩ := List.exists_mem_of_ne_nil _ hne'
-                  obtain ⟨gr, hgr, _⟩ := hmm.1 c hc
-                  exact List.ne_nil_of_mem hgr
-                by_cases hall : groups.all List.isEmpty = true
-                · exfalso
-                  obtain ⟨gr, hgr⟩ := List.exists_mem_of_ne_nil _ hgne
-                  have := List.all_eq_true.1 hall gr hgr
-                  exact hnoempty gr hgr (by simpa using this)
-                · simp only [hall, Bool.false_eq_true, if_false, pure, Except.pure] at hcm
-                  injection hcm with hcm; subst hcm
-                  simp only at h
-                  by_cases hc : (dedupGroups groups).contains [] = true
-                  · exfalso
-                    have : ([] : List (String × String)) ∈ dedupGroups groups := by simpa using hc
-                    exact hnoempty [] ((dedup_mem groups []).1 this) rfl
-                  · simp only [hc, Bool.false_eq_true, if_false] at h
-                    split at h
-                    · cases h
-                    · rename_i txt htxt
-                      obtain ⟨chss, rfl, f1, f2, f3, f4, f5⟩ :=
-                        gpc_text_facts S X Y Z d hds.1 hL groups hgroups hc hgne txt htxt
-                      have hfalse : ∀ ch ∈ chss.flatten, ∃ it ∈ ch, ClauseMeans it X Y Z false := by
-                        intro ch hch
-                        obtain ⟨chs, hchs, hch'⟩ := List.mem_flatten.1 hch
-                        obtain ⟨gr, hgr', hf⟩ := f5 chs hchs
-                        obtain ⟨c, hc1, hcp⟩ := hmm.2 gr hgr'
-                        obtain ⟨ls, h1, h2, h3⟩ := conjPairs_py (ev := ev) c gr hcp (hsh c hc1)
-                        have hcf := member_false_of_sem_false d c hc1 hdf
-                        rw [h3] at hcf
-                        obtain ⟨l0, hl0, hev0⟩ : ∃ l0 ∈ ls, ev l0 = false := by
-                          have : ¬ (∀ x ∈ ls, ev x = true) := by
-                            intro hx; rw [List.all_eq_true.2 hx] at hcf; cases hcf
-                          by_contra hcon
-                          apply this
-                          intro x hx
-                          cases hxe : ev x with
-                          | true => rfl
-                          | false => exact (hcon ⟨x, hx, hxe⟩).elim
-                        have hLs : ∀ l ∈ ls, LeafAlts ev X Y Z l := by
-                          intro l hl
-                          refine hL l (good_leaves c (good_membersIfUnion d hds.1 c hc1) l (h2 l hl)) ?_
-                          rcases hsh c hc1 with ⟨l', rfl, hk⟩ | ⟨ms, rfl, hms⟩
-                          · have := h2 l hl; simp [M.leaves] at this; subst this; exact hk
-                          · have := h2 l hl
-                            simp only [M.leaves] at this
-                            exact leavesList_py ms hms l this
-                        exact (hf.2.2 ls h1.symm hLs).2 ⟨l0, hl0, hev0⟩ ch hch'
-                      obtain ⟨vc, hvc, hb⟩ := (hSp chss.flatten f1 f2 f3).2 hfalse
-                      rw [hvc] at h; injection h with h; subst h
-                      exact hb
+          · rename_i d0 hd0
+            by_cases hde : d0.isEmpty = true
+            · simp only [hde, if_true, pure, Except.pure] at h
+              injection h with h; subst h; exact empty_allowsPlain _
+            · simp only [hde, Bool.false_eq_true, if_false] at h
+              split at h
+              · cases h
+              · rename_i cm hcm
+                simp only [convertMarkersFor, bind, Except.bind] at hcm
+                split at hcm
+                · cases hcm
+                · rename_i d hd
+                  have hds := dnf_sound S hg hd
+                  have hdf : M.sem ev d = false := by rw [hds.2]; exact hs
+                  obtain ⟨hne', hsh⟩ := dnfPy_of d (dnf_isDnf hd) (by intro e; rw [hd0] at hd; cases hd; subst e; exact hde rfl)
+                    (by intro e; rw [e] at hdf; simp at hdf) (hpy d hd)
+                  split at hcm
+                  · cases hcm
+                  · rename_i groups hgroups
+                    have hmm := mapM_ok_mem (conjPairs "python_version") (membersIfUnion d) groups hgroups
+                    have hnoempty : ∀ gr ∈ groups, gr ≠ [] := by
+                      intro gr hgr e
+                      subst e
+                      obtain ⟨c, hc, hcp⟩ := hmm.2 [] hgr
+                      obtain ⟨ls, h1, _, h3⟩ := conjPairs_py (ev := ev) c [] hcp (hsh c hc)
+                      have : ls = [] := by simpa using h1.symm
+                      subst this
+                      have := member_false_of_sem_false d c hc hdf
+                      rw [h3] at this; simp at this
+                    have hgne : groups ≠ [] := by
+                      obtain ⟨c, hc⟩ := List.exists_mem_of_ne_nil _ hne'
+                      obtain ⟨gr, hgr, _⟩ := hmm.1 c hc
+                      exact List.ne_nil_of_mem hgr
+                    by_cases hall : groups.all List.isEmpty = true
+                    · exfalso
+                      obtain ⟨gr, hgr⟩ := List.exists_mem_of_ne_nil _ hgne
+                      have := List.all_eq_true.1 hall gr hgr
+                      exact hnoempty gr hgr (by simpa using this)
+                    · simp only [hall, Bool.false_eq_true, if_false, pure, Except.pure] at hcm
+                      injection hcm with hcm; subst hcm
+                      simp only at h
+                      by_cases hc : (dedupGroups groups).contains [] = true
+                      · exfalso
+                        have : ([] : List (String × String)) ∈ dedupGroups groups := by simpa using hc
+                        exact hnoempty [] ((dedup_mem groups []).1 this) rfl
+                      · simp only [hc, Bool.false_eq_true, if_false] at h
+                        split at h
+                        · cases h
+                        · rename_i txt htxt
+                          obtain ⟨chss, rfl, f1, f2, f3, f4, f5⟩ :=
+                            gpc_text_facts S X Y Z d hds.1 hL groups hgroups hc hgne txt htxt
+                          have hfalse : ∀ ch ∈ chss.flatten, ∃ it ∈ ch, ClauseMeans it X Y Z false := by
+                            intro ch hch
+                            obtain ⟨chs, hchs, hch'⟩ := List.mem_flatten.1 hch
+                            obtain ⟨gr, hgr', hf⟩ := f5 chs hchs
+                            obtain ⟨c, hc1, hcp⟩ := hmm.2 gr hgr'
+                            obtain ⟨ls, h1, h2, h3⟩ := conjPairs_py (ev := ev) c gr hcp (hsh c hc1)
+                            have hcf := member_false_of_sem_false d c hc1 hdf
+                            rw [h3] at hcf
+                            obtain ⟨l0, hl0, hev0⟩ : ∃ l0 ∈ ls, ev l0 = false := by
+                              have : ¬ (∀ x ∈ ls, ev x = true) := by
+                                intro hx; rw [List.all_eq_true.2 hx] at hcf; cases hcf
+                              by_contra hcon
+                              apply this
+                              intro x hx
+                              cases hxe : ev x with
+                              | true => rfl
+                              | false => exact (hcon ⟨x, hx, hxe⟩).elim
+                            have hLs : ∀ l ∈ ls, LeafAlts ev X Y Z l := by
+                              intro l hl
+                              refine hL l (good_leaves c (good_membersIfUnion d hds.1 c hc1) l (h2 l hl)) ?_
+                              rcases hsh c hc1 with ⟨l', rfl, hk⟩ | ⟨ms, rfl, hms⟩
+                              · have := h2 l hl; simp [M.leaves] at this; subst this; exact hk
+                              · have := h2 l hl
+                                simp only [M.leaves] at this
+                                exact leavesList_py ms hms l this
+                            exact (hf.2.2 ls h1.symm hLs).2 ⟨l0, hl0, hev0⟩ ch hch'
+                          obtain ⟨vc, hvc, hb⟩ := (hSp chss.flatten f1 f2 f3).2 hfalse
+                          rw [hvc] at h; injection h with h; subst h
+                          exact hb
 
 end Poetry.Marker
